@@ -103,6 +103,8 @@ fn main() {
         "C17" => wirep::run_c17(&opts, &mut Emitter::new(&mut out, opts.only)),
         "C18" => wirep::run_c18(&opts, &mut Emitter::new(&mut out, opts.only)),
         "C18-child" => wirep::run_c18_child(&opts),
+        "C12-child" => frontp::run_child(&opts, false),
+        "C13-child" => frontp::run_child(&opts, true),
         "C05" => resolvep::run_c05(&opts, &mut Emitter::new(&mut out, opts.only)),
         "C20" => resolvep::run_c20(&opts, &mut Emitter::new(&mut out, opts.only)),
         "C06" => stages::run_c06(&opts, &mut Emitter::new(&mut out, opts.only)),
